@@ -77,7 +77,10 @@ def rules_case(draw):
                                       ['cmp', ['call', 'extract', [['str', bad]]], [['==', ['str', '']]]], ['if', ['match', 'regex', None, bad], ['lit', True], ['lit', True]],
                                       # arithmetic on a value that is no number (also when it is empty / falsy) is a type error whatever the transaction
                                       ['cmp', ['bin', '/', ['name', 'amount'], ['str', '']], [['<', ['num', 20]]]], ['cmp', ['bin', '%', ['name', 'amount'], ['str', '']], [['==', ['num', 0]]]],
-                                      ['cmp', ['bin', '/', ['num', 1], empty], [['>=', ['num', 0]]]]]))
+                                      ['cmp', ['bin', '/', ['num', 1], empty], [['>=', ['num', 0]]]],
+                                      # next() without a default over an empty selection has no value (an exhausted generator) - it is not None
+                                      ['cmp', ['nextgen', ['attr', 'r', 'item'], 'r', ['name', 'orders'], ['lit', False], None], [['!=', ['str', 'cancelled']]]],
+                                      ['not', ['nextgen', ['name', 'r'], 'r', ['name', 'receipts'], ['cmp', ['attr', 'r', 'amount'], [['>', ['num', 10 ** 9]]]], None]]]))
             rs.insert(draw(st.integers(0, len(rs))), {'name': 'Never Evaluable', 'match': m, 'category': draw(st.sampled_from(['', 'NeverCat'])), 'subcategory': '', 'merchant': None,
                                                      'priority': None, 'tags': ['never-evaluable'], 'lets': [], 'fields': []})
             continue
